@@ -344,3 +344,5 @@ func (g *Gen) injects(peer string, n int, from, to int64, tag string) []BrokerIn
 	}
 	return out
 }
+
+func newRng(seed uint64) *simrt.Rng { return simrt.NewRng(seed) }
